@@ -4,7 +4,7 @@ KANI = "Kani 0.68 function contracts / loop-free full-domain harnesses over CBMC
 
 ENGINES = [
     {"name": "kani-contracts", "path": "/verif/tools/run_check.py",
-     "serves_properties": ["C01", "C08", "C09", "C11", "C12", "C13", "C14", "C15", "C17", "C22", "C29", "C30", "C36"],
+     "serves_properties": ["C01", "C08", "C09", "C11", "C12", "C13", "C14", "C15", "C17", "C22", "C23", "C29", "C30", "C36"],
      "kind_free_text": KANI},
     {"name": "verus+kani", "path": "/verif/tools/extract.py",
      "serves_properties": ["C02", "C16"],
@@ -76,11 +76,25 @@ CLAIMED = {
         "text": "SELECTOR ONLY - this decides which candidate wins once the candidates and their strengths are known; it does not decide which symbols are candidates, duplicate-strong/COMDAT errors, shared-library filtering or undefined-symbol errors. The three methods are extracted verbatim (rules X1, X2, X7) and given contracts over an abstract view (the sequence of candidates considered so far, in command-line order): new() represents the empty sequence; consider() maintains first-strong / earliest-largest-common / first-weak for EVERY prior sequence; best() returns the ELF rule's choice (strong > largest common > weak, earliest among equals, Undefined never wins). A lemma proved from those contracts alone shows fold(consider).best() is the rule's choice for candidate vectors of any length. This is a data-structure-against-abstract-view property, which needs induction: Verus.",
         "note": "Not decided: select_symbol's loop (dynamic symbols skipped, COMDAT exemption, --allow-multiple-definition), SymbolStrength::of, resolution of undefined/weak-undefined references - all over AtomicSymbolDb/Layout, which neither verifier can construct. Trusted: is_best() as the transcription of the property's rule; assume_specification for Option::or; extraction rules. The Kani harness is a bounded replay vehicle only and is not counted as proved.",
     },
+    "C01": {
+        "category": "proof",
+        "design_ref": "DESIGN.md section 6, C01",
+        "technique": "Kani full-domain harnesses over symbolic r_type: u32 on x86_64::relocation_from_raw / aarch64::relocation_type_from_raw against the psABI's formula per relocation number (operation, paged operands, bias, thunkable), the C12 field lemmas re-run, DynamicRelocationKind number tables on four architectures; plus (under C23's harness) the TLS GOT-slot accessors against the writer",
+        "text": "RELOCATION-TABLE CONFORMANCE ONLY - symbol resolution, GOT/PLT/TLS allocation and the computation of S, A, P, G in apply_relocation are not decided, so 'same addresses as GNU ld' is not decided as a whole. For every relocation type number CBMC proves on the real tables that the operation wild selects (RelocationKind, which operands are paged and by 4 KiB, bias, range-extension eligibility) is the psABI's formula for that number, that the bytes written are the psABI's bit slice of that formula's value in the psABI's instruction class (shared with C12), and that every dynamic relocation kind maps to the psABI's number on x86-64, AArch64, RISC-V and LoongArch with an inverse decoder. Loop-free const tables over a symbolic u32: a proof over the whole domain.",
+        "note": "Trusted: the hand transcription of x86-64 psABI table 4.9 (+APX rows) and aaelf64 5.7.3-5.7.12 in the ABI's own notation and the reading of each RelocationKind's doc comment as a formula; C12's field oracles. R_X86_64_GOTPC32/64 (GOT+A-P) are accepted as Relative because wild relies on the symbol being _GLOBAL_OFFSET_TABLE_. RISC-V/LoongArch static tables are not covered.",
+    },
+    "C09": {
+        "category": "proof",
+        "design_ref": "DESIGN.md section 6, C09",
+        "technique": "Kani loop-free full-domain harnesses (contract form) on the real TableWriter::write_address_relocation for four architectures and on its caller write_absolute_relocation, with Layout/ObjectLayout/OutputSections as nondeterministic storage; loader rules of glibc as the oracle",
+        "text": "EMISSION SIDE ONLY - that layout reserves an entry in the table the writer picks, and whole-image equality, are not decided. For every place, section address (odd or even), symbol value, addend, load base, symbol class and RELR on/off CBMC proves on the real code: a place that is to hold a link-time address in a PIE/static-PIE/shared output is covered by exactly one relative dynamic relocation - an even RELR address entry equal to the place with the address stored in place, or a RELA {place, R_*_RELATIVE, S+A} - so that what the loader leaves there is (S+A)+base for every base; absolute symbols and places in non-allocated sections get no dynamic relocation and hold S+A; a full table is reported and nothing is written. Loop-free code, all inputs symbolic: a proof.",
+        "note": "Trusted: glibc's RELR/RELA relative-relocation rules; R_*_RELATIVE numbers. Assumed: resolution.raw_value != 0 (zero takes the string-merge lookup through Layout); interposable and ifunc arms excluded (stubbed by panicking functions); verify_allocations_message and format stubbed. Not decided: the RELR/RELA choice made at allocation time (by offset parity) versus at write time (by address parity), GOT callers, RELR bitmaps (none emitted).",
+    },
 }
 
 PENDING = {
     pid: "check under construction in this session (planned claim, see DESIGN.md section 6); not claimed until its obligations run green"
-    for pid in ["C01", "C08", "C09", "C11", "C15", "C22", "C30", "C36"]
+    for pid in ["C08", "C11", "C15", "C22", "C23", "C30", "C36"]
 }
 
 NOT_APPLICABLE = {
@@ -94,7 +108,6 @@ NOT_APPLICABLE = {
     "C19": "a statement about file-system state (which paths are created/modified); outside any function contract",
     "C20": "depends on mtime sampling order against an external writer (history property)",
     "C21": "a statement about what another process sees through execve/mmap; OS semantics",
-    "C23": "a relation between two passes (layout allocates, writer consumes) each spread over thousands of lines of Layout-entangled generic code; no pair of function contracts within reach relates them",
     "C24": "the oracle is POSIX sh word splitting plus file-system state; the quoting is an inline loop inside an I/O-bound function",
     "C25": "'every file the link read' is a history property of I/O plumbing through lib.rs",
     "C26": "quantifies over schedules (same reason as C06)",
